@@ -1408,6 +1408,11 @@ class _Run:
                     return sym.op("is_zero", a0)
                 if nm == "u128":
                     return a0
+            if name == "std::iter::Iterator::position" and len(args) == 2 and tag(args[1]) == "closure":
+                # `list.iter().position(|x| *x == y)`: Some(index) exactly when the list contains y
+                m_ = self.any_as_contains(args[0], args[1])
+                if m_ is not None:
+                    return sym.call("list::index_of", list(kids(m_)), "", 0)
             if name == "std::iter::Iterator::any" and len(args) == 2 and tag(args[1]) == "closure":
                 # `list.iter().any(|x| *x == y)` is the membership test `list.contains(&y)`
                 m_ = self.any_as_contains(args[0], args[1])
